@@ -3,6 +3,7 @@ package main
 import (
 	"fmt"
 	"go/token"
+	"go/types"
 	"strings"
 
 	"golang.org/x/tools/go/ssa"
@@ -421,4 +422,199 @@ func argOfParam(f *ssa.Function, p *ssa.Parameter) ssa.Value {
 		return nil
 	}
 	return out
+}
+
+// errorsFail (E1): in fn, an error a callee reported and fn looks at makes fn fail: from the call, no return that
+// can hand out a nil error is reachable except over the edge on which that error was found nil. A function that
+// tests an error says the step can fail; going on to success past the failing edge (a check whose body was lost,
+// a condition turned round, `return nil` where `return err` stood) defeats the step. Errors fn never looks at, and
+// callees listed in `tolerated` (fn logs and goes on by design), are not examined. Returns the number of calls
+// examined.
+func (ru *Rule) errorsFail(fn *ssa.Function, tolerated ...string) int {
+	c := ru.rep.ctx
+	ei := errResultIndex(fn)
+	if ei < 0 || fn.Blocks == nil {
+		return 0
+	}
+	tol := map[string]bool{}
+	for _, t := range tolerated {
+		tol[t] = true
+	}
+	errT := types.Universe.Lookup("error").Type()
+	n := 0
+	for _, b := range fn.Blocks {
+		for _, in := range b.Instrs {
+			call, ok := in.(*ssa.Call)
+			if !ok {
+				continue
+			}
+			res := call.Call.Signature().Results()
+			if res.Len() == 0 || !types.Identical(res.At(res.Len()-1).Type(), errT) {
+				continue
+			}
+			var v ssa.Value = call
+			if res.Len() > 1 {
+				v = nil
+				for _, ref := range *call.Referrers() {
+					if ex, isEx := ref.(*ssa.Extract); isEx && ex.Index == res.Len()-1 {
+						v = ex
+					}
+				}
+			}
+			if v == nil {
+				continue
+			}
+			used := false
+			for _, ref := range *v.Referrers() {
+				if _, isDbg := ref.(*ssa.DebugRef); !isDbg {
+					used = true
+				}
+			}
+			if !used || tol[calleeKey(call)] || calleeNameIs(call, "Close", "SetDeadline", "SetReadDeadline", "SetWriteDeadline") {
+				continue // (a failed Close / deadline is logged at most, everywhere in this code base)
+			}
+			if k := calleeKey(call); strings.HasPrefix(k, "fmt.") || strings.HasPrefix(k, "errors.") || k == "(context.Context).Err" || k == "context.Cause" {
+				continue // (makes or reads an error value; nothing failed here)
+			}
+			// The rule speaks only where the function's own text makes the case: the error is compared with nil right
+			// here (not inside a closure or helper, not after merging with another error), and with nothing else (a
+			// function that singles out io.EOF or a token-rejected sentinel goes on by design on some errors).
+			nilTested, special := false, false
+			refs := append([]ssa.Instruction{}, *v.Referrers()...)
+			// (an error kept in a variable with a cell, e.g. a named result a deferred function writes: the loads this
+			// store reaches)
+			for _, ref := range *v.Referrers() {
+				st, isSt := ref.(*ssa.Store)
+				if !isSt || st.Val != v {
+					continue
+				}
+				if al, isAl := st.Addr.(*ssa.Alloc); isAl {
+					for _, ar := range *al.Referrers() {
+						if ld, isLd := ar.(*ssa.UnOp); isLd && ld.Op == token.MUL && ld.Parent() == fn && loadedValue(ld) == v {
+							refs = append(refs, *ld.Referrers()...)
+						}
+					}
+				}
+			}
+			for _, ref := range refs {
+				switch x := ref.(type) {
+				case *ssa.BinOp:
+					if x.Op == token.EQL || x.Op == token.NEQ {
+						if isNilConst(x.X) || isNilConst(x.Y) {
+							nilTested = true
+						} else {
+							special = true
+						}
+					}
+				case *ssa.Call:
+					if k := calleeKey(x); k == "errors.Is" || k == "errors.As" {
+						special = true
+					}
+				case *ssa.MakeInterface, *ssa.ChangeInterface:
+					special = true
+				}
+			}
+			if !nilTested || special {
+				continue
+			}
+			n++
+			isV := func(x ssa.Value) bool {
+				if x == v {
+					return true
+				}
+				r := resolveLoad(strip2(x))
+				return r == v
+			}
+			bad := ""
+			for _, ret := range returnsOf(fn) {
+				if !isNilConst(retVal(ret, ei)) {
+					continue // (only the plain `return .., nil` counts as success here: anything else may be the failure in another form)
+				}
+				w, _ := (&Cut{Fn: fn, From: []ssa.Instruction{call}, Target: isInstr(ret), EdgeCut: anyEdge(edgeNil(isV, true), failCut(ret)), StopAtFrom: true}).Run(c)
+				if w != "" {
+					bad = w
+					break
+				}
+			}
+			ru.Check(bad == "", fnKey(fn)+": an error reported by "+calleeKey(call)+" fails the operation", instrPos(call), 1, "", "the step's failure is ignored: the operation goes on to succeed", bad)
+		}
+	}
+	return n
+}
+
+// carriesErr: the returned error is computed from the error at hand by a call that takes it as an argument
+// (parseError(err), errors.Join(err, cerr)): the failure is handed out in another form.
+func carriesErr(rv ssa.Value, isV func(ssa.Value) bool) bool {
+	call, ok := strip(rv).(*ssa.Call)
+	if !ok {
+		if ex, isEx := strip(rv).(*ssa.Extract); isEx {
+			call, ok = ex.Tuple.(*ssa.Call)
+		}
+		if !ok {
+			return false
+		}
+	}
+	for _, a := range call.Call.Args {
+		if isV(strip(a)) {
+			return true
+		}
+		// a variadic argument list holding it
+		if sl, isSl := a.(*ssa.Slice); isSl {
+			if al, isAl := sl.X.(*ssa.Alloc); isAl {
+				for _, ref := range *al.Referrers() {
+					ia, isIA := ref.(*ssa.IndexAddr)
+					if !isIA {
+						continue
+					}
+					for _, r2 := range *ia.Referrers() {
+						if st, isSt := r2.(*ssa.Store); isSt && st.Addr == ssa.Value(ia) {
+							if isV(strip(st.Val)) {
+								return true
+							}
+							// errors.Join(fmt.Errorf(..), ..): not nil whatever the rest is
+							if calleeKey(call) == "errors.Join" && isResultOfCall(strip(st.Val), 0, "fmt.Errorf", "errors.New") != nil {
+								return true
+							}
+						}
+					}
+				}
+			}
+		}
+	}
+	return false
+}
+
+// lookupOrCreate (E1): the shape of a registry getter. In fn, the constructor runs only past a miss of the lookup in
+// the map field; what it made is stored in that map under the function's key parameter before fn returns; and
+// every return passes each of the `always` calls (a reference taken for the caller).
+func (ru *Rule) lookupOrCreate(fn *ssa.Function, mapKey, ctorKey string, always ...string) {
+	c := ru.rep.ctx
+	isMap := func(v ssa.Value) bool { return isLoadOfField(mapKey)(strip2(v)) }
+	isMiss := func(v ssa.Value) bool {
+		ex, ok := resolveLoad(strip2(v)).(*ssa.Extract)
+		if !ok || ex.Index != 1 {
+			return false
+		}
+		lk, ok := ex.Tuple.(*ssa.Lookup)
+		return ok && lk.CommaOk && isMap(lk.X)
+	}
+	news := findInstrs(fn, callPred(ctorKey))
+	ru.guard(fn, "create", news, "nothing is registered under the key", edgeBool(isMiss, false), nil)
+	key := fn.Params[len(fn.Params)-1]
+	for _, nw := range news {
+		isReg := func(in ssa.Instruction) bool {
+			mu, ok := in.(*ssa.MapUpdate)
+			if !ok || !isMap(mu.Map) {
+				return false
+			}
+			k := resolveLoad(strip2(mu.Key))
+			return derivesFrom(mu.Value, func(v ssa.Value) bool { return v == nw.(ssa.Value) }) && (k == ssa.Value(key) || isParamCellLoad(c, k, key))
+		}
+		ru.mustPass(fn, fnKey(fn)+": what was created is registered under the key asked for", &Cut{Fn: fn, From: []ssa.Instruction{nw}, Target: isRetInstr, Sep: isReg}, 1)
+	}
+	for _, k := range always {
+		calls := findInstrs(fn, callPred(k))
+		w, n := (&Cut{Fn: fn, Target: isRetInstr, Sep: inSet(calls)}).Run(c)
+		ru.Check(w == "" && len(calls) >= 1, fnKey(fn)+": every return passes "+calleeShort0(k), fn.Pos(), n+1, "", "the caller's reference is not counted: the scope can be collected under it", w)
+	}
 }
